@@ -38,6 +38,8 @@ type c17v struct {
 	alloc  *ssa.Alloc
 	fidx   int
 	base   *c17v
+	fn     *ssa.Function // k == "closure"
+	free   []*c17v
 }
 
 func c17unk(s string) *c17v { return &c17v{k: "unk", s: s} }
@@ -108,7 +110,7 @@ func (it *c17interp) eval(fr *c17frame, v ssa.Value) *c17v {
 	case *ssa.Global:
 		return &c17v{k: "global", s: x.Name()}
 	case *ssa.Function:
-		return &c17v{k: "func", s: x.Name()}
+		return &c17v{k: "closure", s: x.Name(), fn: x}
 	}
 	return c17unk("not computed: " + short(v.String(), 30))
 }
@@ -165,7 +167,9 @@ func (it *c17interp) load(a *c17v, t types.Type) *c17v {
 	return c17unk("load of " + a.k)
 }
 
-func (it *c17interp) call(fn *ssa.Function, args []*c17v) *c17v {
+func (it *c17interp) call(fn *ssa.Function, args []*c17v) *c17v { return it.callClosure(fn, args, nil) }
+
+func (it *c17interp) callClosure(fn *ssa.Function, args []*c17v, free []*c17v) *c17v {
 	if it.depth > 12 {
 		return it.fail("call depth exceeded in the lookup code")
 	}
@@ -175,6 +179,11 @@ func (it *c17interp) call(fn *ssa.Function, args []*c17v) *c17v {
 	for i, p := range fn.Params {
 		if i < len(args) {
 			fr.env[p] = args[i]
+		}
+	}
+	for i, fv := range fn.FreeVars {
+		if i < len(free) {
+			fr.env[fv] = free[i]
 		}
 	}
 	blk := fn.Blocks[0]
@@ -200,6 +209,15 @@ func (it *c17interp) call(fn *ssa.Function, args []*c17v) *c17v {
 				fr.env[x] = &c17v{k: "addr", alloc: x, fidx: -1}
 			case *ssa.FieldAddr:
 				base := it.eval(fr, x.X)
+				// the index maps may live in a struct of their own inside the parser: &p.idx.byCode — the inner
+				// struct stands for the parser
+				if base.k == "addr" && base.base != nil && base.base.k == "parser" {
+					if pt, ok := x.X.Type().Underlying().(*types.Pointer); ok {
+						if _, isStruct := pt.Elem().Underlying().(*types.Struct); isStruct {
+							base = base.base
+						}
+					}
+				}
 				if base.k == "addr" && base.alloc != nil && base.fidx < 0 {
 					fr.env[x] = &c17v{k: "addr", alloc: base.alloc, fidx: x.Field}
 				} else {
@@ -247,6 +265,12 @@ func (it *c17interp) call(fn *ssa.Function, args []*c17v) *c17v {
 				}
 			case *ssa.BinOp:
 				fr.env[x] = it.binop(x, it.eval(fr, x.X), it.eval(fr, x.Y))
+			case *ssa.MakeClosure:
+				cl := &c17v{k: "closure", s: x.Fn.Name(), fn: x.Fn.(*ssa.Function)}
+				for _, b := range x.Bindings {
+					cl.free = append(cl.free, it.eval(fr, b))
+				}
+				fr.env[x] = cl
 			case *ssa.ChangeType:
 				fr.env[x] = it.eval(fr, x.X)
 			case *ssa.Convert:
@@ -456,6 +480,9 @@ func (it *c17interp) doCall(fr *c17frame, x *ssa.Call) *c17v {
 	}
 	g := flow.StaticCallee(x)
 	if g == nil {
+		if fv := it.eval(fr, com.Value); fv.k == "closure" && fv.fn != nil && fv.fn.Blocks != nil && it.c.P.IsLibrary(fv.fn) {
+			return it.callClosure(fv.fn, args, fv.free)
+		}
 		return c17unk("dynamic call")
 	}
 	if flow.IsCallTo(x, pkgDict, "", "MakeUnknownAVP") && len(args) == 3 {
